@@ -56,6 +56,9 @@ type Range struct {
 	// Empty is the number of empty list elements (bare commas) rendered in front of this element. RFC 7230 section 7
 	// obliges recipients to ignore them; the generators do not draw them (see genEmptyElements), saved cases may.
 	Empty int `json:"empty,omitempty"`
+	// Blank is the number of empty header lines ("Accept:" without a value) sent in front of the line this element
+	// starts (first element, or NL). An empty line holds no range: the ranges of the other lines still count.
+	Blank int `json:"blank,omitempty"`
 }
 
 // Case is a structured negotiation case: no header at all when Ranges is empty.
@@ -252,11 +255,21 @@ func Lines(ranges []Range) []string {
 		if r.Empty > 0 && r.Empty <= 8 {
 			empties = strings.Repeat(",", r.Empty)
 		}
+		blanks := 0
+		if r.Blank > 0 && r.Blank <= 3 {
+			blanks = r.Blank
+		}
 		switch {
 		case i == 0:
+			for b := 0; b < blanks; b++ {
+				lines = append(lines, "")
+			}
 			cur = empties + text
 		case r.NL:
 			lines = append(lines, cur)
+			for b := 0; b < blanks; b++ {
+				lines = append(lines, "")
+			}
 			cur = empties + text
 		default:
 			cur += before + "," + empties + after + text
